@@ -191,7 +191,7 @@ func runC12(r *rep.R) {
 		key, msg := c12One(c, r)
 		r.Eval(rep.H(fmt.Sprintf("%v|%d|%d|%v", c.Prefs, c.Adv, c.AdvOrder, c.Announce)), true)
 		r.Trace()
-		if idx%1013 == 1 {
+		if r.WantSample() {
 			r.Sample(c)
 		}
 		if key != "" {
